@@ -97,7 +97,8 @@ PROOF_UNITS = {
     'C16': [('contracts.convert', 'ToDirected', (), {})] + [('contracts.ctor', 'Init', ('DynDiGraph',), {'edge_removal': 'default'})],
     'C10': [('contracts.writers', 'GenerateInteractions', (cls,), {}) for cls in ('DynGraph', 'DynDiGraph')]
            + [('contracts.stream', 'StreamInteractions', (cls,), {}) for cls in ('DynGraph', 'DynDiGraph')],
-    'C11': [('contracts.writers', 'NodeLinkData', (cls,), {}) for cls in ('DynGraph', 'DynDiGraph')],
+    'C11': [('contracts.writers', 'NodeLinkData', (cls,), {}) for cls in ('DynGraph', 'DynDiGraph')]
+           + [('contracts.parsers', 'NodeLinkGraph', (fl,), {}) for fl in ('undirected', 'directed')],
     'C14': [('contracts.pure', 'AnnotatePaths', (), {}), ('contracts.pure', 'PathLength', (), {}), ('contracts.pure', 'PathDuration', (), {})],
     'C17': [('contracts.stats', k, (), {}) for k in ('EdgeContribution', 'NodeContribution', 'PairDensity', 'Coverage', 'NodePresence')]
            + [('contracts.stats', 'InterEventTimes', (cls,), {'u': u}) for cls in ('DynGraph', 'DynDiGraph') for u in ('none', 'node')]
